@@ -2,7 +2,9 @@ package rules
 
 import (
 	"fmt"
+	"go/constant"
 	"go/token"
+	"go/types"
 
 	"golang.org/x/tools/go/ssa"
 
@@ -15,7 +17,7 @@ func init() {
 		Title: "A quorum call ends exactly on quorum, exhaustion (Incomplete) or context end",
 		Run:   runC02,
 		Meta: core.PropertyMeta{
-			Explanation: "Decides the exit structure of the three reply loops and the future's completion protocol. T1: every completion (return / future store / final set) is exactly one of success, exhausted (QuorumCallError{cause: Incomplete} under the exhaustion test's true edge) or context (QuorumCallError{cause: ctx.Err()} inside the ctx.Done() case); nothing else. T2: the error's accounting fields are the loop's own error slice (appended only with nodeError{r.nid, r.err} on the error edge) and len(reply map). T3: every iteration re-evaluates the exhaustion test before waiting again. T4: in every send loop, on every path through one iteration, (#enqueue) + (#decrements of the expected count) = 1, the skip path is the '!IsValid()' edge of the per-node function's result, and the count starts at len(c) and reaches the loop that uses it. T5: the exhaustion test is evaluated before the first wait too (no wait when nothing is outstanding). T6: Async.c is closed only by a defer that is registered before anything else in handleAsyncCall, reply/err are written only there, directly before returning, and read only after a receive on c. T7: QuorumCallError.Is compares the cause.",
+			Explanation: "Decides the exit structure of the three reply loops and the future's completion protocol. T1: every completion (return / future store / final set) is exactly one of success, exhausted (QuorumCallError{cause: Incomplete} under the exhaustion test's true edge) or context (QuorumCallError{cause: ctx.Err()} inside the ctx.Done() case); nothing else. T2: the error's accounting fields are the loop's own error slice (appended only with nodeError{r.nid, r.err} on the error edge) and len(reply map). T3: every iteration re-evaluates the exhaustion test before waiting again. T4: in every send loop, on every path through one iteration, (#enqueue) + (#decrements of the expected count) = 1, the skip path is the '!IsValid()' edge of the per-node function's result, and the count starts at len(c) and reaches the loop that uses it. T5: the exhaustion test is evaluated before the first wait too (no wait when nothing is outstanding). T6: Async.c is closed only by a defer that is registered before anything else in handleAsyncCall, reply/err are written only there, directly before returning, and read only after a receive on c. T7: QuorumCallError.Is answers true whenever the cause equals the target (evaluated symbolically under that assumption), or Unwrap hands out the cause.",
 			NotDecided:  "Wall-clock 'never keeps waiting' (decided only as: no path waits while the exhaustion condition already holds); 'at the first reply for which the function reports a quorum' is R4+R5 of C01 given this loop shape.",
 			Trusted:     append([]string{"select/channel semantics of Go", "errors.Is calls the Is method"}, commonTrust...),
 		},
@@ -33,7 +35,7 @@ func runC02(l *core.Ledger) {
 	l.Rule("C02-T4", "send loops: per iteration #enqueue + #decrement(expected) = 1 on every path, skip only on the !IsValid edge of the per-node result, expected initialised from len(c) and handed to the reply loop")
 	l.Rule("C02-T5", "every path from function entry to the first blocking select passes the exhaustion test (no wait when no node is targeted)")
 	l.Rule("C02-T6", "Async.c closed only by a defer registered first in handleAsyncCall; Async.reply/err written only there, immediately before return; Get reads them only after receiving on c; Done only polls c")
-	l.Rule("C02-T7", "QuorumCallError.Is returns the comparison of the cause field with the target (or the target's cause)")
+	l.Rule("C02-T7", "errors.Is(err, cause) holds for a call error: QuorumCallError.Is answers true on every path whenever the cause equals the target (== or errors.Is on the cause), or Unwrap returns the cause")
 	l.Rule("C02-T8", "each targeted node answers a call at most once and at least once: deliver-then-delete under one hold of the router lock, error deliveries delete the router, a dequeued request is sent or answered, a stream error fails every pending call (C05-M3/M4, C07-E3/E4/E6 re-run)")
 
 	loops := findReplyLoops(l, r, "C02-T1")
@@ -253,6 +255,20 @@ func c02Loop(l *core.Ledger, r *rt, rl *replyLoop) {
 	// ---- T1 / T2
 	comps := completions(rl)
 	nSucc, nEx, nCtx := 0, 0, 0
+	// where the call's context is known to have ended: the ctx.Done() case of the loop's
+	// select, and the non-nil edge of every test of that context's Err()
+	ctxEndedEdges := []sx.Edge{rl.ctxEdge}
+	if rl.hasCtx {
+		mErr := func(o sx.Origin) bool {
+			cc, ok := o.V.(*ssa.Call)
+			return o.Kind == sx.KCall && ok && cc.Call.IsInvoke() && cc.Call.Method.Name() == "Err" && cc.Call.Value == rl.ctxVal
+		}
+		sx.AllInstrs(rl.fn, func(_ sx.Node, in ssa.Instruction) {
+			if ifi, ok := in.(*ssa.If); ok && isErrNonNil(ifi, mErr) != 0 {
+				ctxEndedEdges = append(ctxEndedEdges, errEdge(ifi, mErr, true))
+			}
+		})
+	}
 	for i, c := range comps {
 		k := fmt.Sprintf("%s/completion%d", key, i)
 		pos := sx.PosOf(c.at)
@@ -272,7 +288,17 @@ func c02Loop(l *core.Ledger, r *rt, rl *replyLoop) {
 			l.Check(okDom, "C02-T1", k, pos, "success under the quorum function's verdict", "a nil-error completion is reachable without a quorum verdict")
 			continue
 		}
+		isCtxErr := func(o sx.Origin) bool {
+			cc, ok := o.V.(*ssa.Call)
+			return o.Kind == sx.KCall && ok && cc.Call.IsInvoke() && cc.Call.Method.Name() == "Err" && cc.Call.Value == rl.ctxVal
+		}
 		fields, ok := qcErrorLiteral(c.err)
+		if !ok && rl.hasCtx && sx.All(sx.Origins(c.err), isCtxErr) {
+			// the context's own error, not wrapped: "returns the context's error" holds literally
+			nCtx++
+			l.Check(c.under(rl.fn, ctxEndedEdges), "C02-T1", k, pos, "context error (unwrapped) only where the context was observed to have ended", "the context's error is reported outside the case that observed ctx.Done()")
+			continue
+		}
 		if !ok {
 			l.Bad("C02-T1", k, pos, "completion with an error that is not a QuorumCallError literal: "+sx.OriginsString(sx.Origins(c.err))+" (no other outcome than success / Incomplete / context error is allowed)")
 			continue
@@ -287,7 +313,11 @@ func c02Loop(l *core.Ledger, r *rt, rl *replyLoop) {
 			return o.Kind == sx.KCall && ok && cc.Call.IsInvoke() && cc.Call.Method.Name() == "Err" && cc.Call.Value == rl.ctxVal
 		}):
 			nCtx++
-			l.Check(c.under(rl.fn, []sx.Edge{rl.ctxEdge}), "C02-T1", k, pos, "context error only inside the ctx.Done() case", "the context's error is reported outside the case that observed ctx.Done()")
+			l.Check(c.under(rl.fn, ctxEndedEdges), "C02-T1", k, pos, "context error only where the context was observed to have ended (ctx.Done() case, or a ctx.Err() tested non-nil)", "the context's error is reported outside the case that observed ctx.Done()")
+			if fields["errors"] == nil && fields["replies"] == nil {
+				// the property fixes the numbers only for Incomplete; a context report without them is complete
+				continue
+			}
 		default:
 			l.Bad("C02-T1", k, pos, "QuorumCallError with cause "+sx.OriginsString(cause)+": neither Incomplete nor the Err() of the context selected on")
 			continue
@@ -701,55 +731,168 @@ func c02T6(l *core.Ledger, r *rt) {
 // ---------------------------------------------------------------- T7
 
 func c02T7(l *core.Ledger, r *rt) {
-	fn := r.mustFn("C02-T7", "QuorumCallError.Is")
-	if fn == nil {
+	// What errors.Is(err, X) needs when X is the cause (Incomplete, ctx.Err()): either an
+	// Unwrap method that hands out the cause (errors.Is then compares it itself), or an Is
+	// method that answers true whenever cause == target. The Is method is decided by
+	// evaluating its branches under that assumption (and "target is not a gorums type":
+	// the causes in question are Incomplete and the context package's errors).
+	isFn, unFn := r.fn("QuorumCallError.Is"), r.fn("QuorumCallError.Unwrap")
+	if (isFn == nil || len(isFn.Blocks) == 0) && (unFn == nil || len(unFn.Blocks) == 0) {
+		tn := r.pkg.Types.Scope().Lookup("QuorumCallError")
+		if tn == nil {
+			r.l.Unknown("C02-T7", "anchor/QuorumCallError", token.NoPos, "type QuorumCallError not found in package gorums: the rule's subject cannot be located")
+			return
+		}
+		l.Check(false, "C02-T7", "gorums.(QuorumCallError).Is", tn.Pos(), "", "QuorumCallError has neither an Is method that compares the cause nor an Unwrap method that returns it: errors.Is(err, Incomplete) / errors.Is(err, ctx.Err()) are false for every call error")
+		return
+	}
+	if unFn != nil && len(unFn.Blocks) > 0 && len(unFn.Params) == 1 {
+		e := unFn.Params[0]
+		good, n := true, 0
+		sx.AllInstrs(unFn, func(_ sx.Node, in ssa.Instruction) {
+			if ret, isRet := in.(*ssa.Return); isRet && len(ret.Results) == 1 {
+				n++
+				if !sx.All(sx.Origins(ret.Results[0]), sx.IsFieldNamed("cause", sx.IsParam(e))) {
+					good = false
+				}
+			}
+		})
+		if good && n > 0 {
+			l.Check(true, "C02-T7", "gorums.(QuorumCallError).Is", unFn.Pos(), "Unwrap returns the cause on every path: errors.Is compares the cause itself", "")
+			return
+		}
+	}
+	fn := isFn
+	if fn == nil || len(fn.Blocks) == 0 || len(fn.Params) != 2 {
+		pos := token.NoPos
+		if unFn != nil {
+			pos = unFn.Pos()
+		}
+		l.Check(false, "C02-T7", "gorums.(QuorumCallError).Is", pos, "", "QuorumCallError.Unwrap does not return the cause on every path and there is no Is method: errors.Is(err, Incomplete) / errors.Is(err, ctx.Err()) no longer follow from the cause")
 		return
 	}
 	e, target := fn.Params[0], fn.Params[1]
-	isCause := func(p ssa.Value) func(sx.Origin) bool {
-		return sx.IsFieldNamed("cause", sx.IsParam(p))
+	isCause := func(v ssa.Value) bool { return sx.All(sx.Origins(v), sx.IsFieldNamed("cause", sx.IsParam(e))) }
+	isTarget := func(v ssa.Value) bool {
+		return sx.All(sx.Origins(v), func(o sx.Origin) bool { return o.Kind == sx.KParam && o.V == target })
 	}
-	ok := true
-	n := 0
-	sx.AllInstrs(fn, func(_ sx.Node, in ssa.Instruction) {
-		ret, isRet := in.(*ssa.Return)
-		if !isRet {
-			return
+	const (
+		unk = iota
+		tru
+		fls
+	)
+	var eval func(v ssa.Value, pred *ssa.BasicBlock, depth int) int
+	eval = func(v ssa.Value, pred *ssa.BasicBlock, depth int) int {
+		if depth > 8 {
+			return unk
 		}
-		n++
-		b, isB := ret.Results[0].(*ssa.BinOp)
-		if !isB || b.Op != token.EQL {
-			ok = false
-			return
-		}
-		x, y := sx.Origins(b.X), sx.Origins(b.Y)
-		if !sx.All(x, isCause(e)) {
-			x, y = y, x
-		}
-		if !sx.All(x, isCause(e)) {
-			ok = false
-			return
-		}
-		// other side: the target itself, or the cause of the target asserted to QuorumCallError
-		okY := sx.All(y, func(o sx.Origin) bool {
-			if o.Kind == sx.KParam && o.V == target {
-				return true
+		switch x := v.(type) {
+		case *ssa.Const:
+			if x.Value != nil && x.Value.Kind() == constant.Bool {
+				if constant.BoolVal(x.Value) {
+					return tru
+				}
+				return fls
 			}
-			if o.Kind == sx.KField && o.Field != nil && o.Field.Name() == "cause" {
-				return sx.All(o.Base, func(b sx.Origin) bool {
-					if b.Kind == sx.KExtract {
-						if ta, isTA := b.V.(*ssa.TypeAssert); isTA {
-							return ta.X == target
-						}
+		case *ssa.BinOp:
+			if x.Op == token.EQL || x.Op == token.NEQ {
+				if (isCause(x.X) && isTarget(x.Y)) || (isCause(x.Y) && isTarget(x.X)) {
+					if x.Op == token.EQL {
+						return tru
 					}
-					return b.Kind == sx.KParam && b.V == target
-				})
+					return fls
+				}
 			}
-			return false
-		})
-		if !okY {
-			ok = false
+		case *ssa.UnOp:
+			if x.Op == token.NOT {
+				switch eval(x.X, pred, depth+1) {
+				case tru:
+					return fls
+				case fls:
+					return tru
+				}
+			}
+		case *ssa.Call:
+			if sx.StaticCalleeName(&x.Call) == "errors.Is" && len(x.Call.Args) == 2 && isCause(x.Call.Args[0]) && isTarget(x.Call.Args[1]) {
+				return tru
+			}
+		case *ssa.Extract:
+			// "target.(T)" with T declared in this package: the causes this rule is about are not gorums types
+			if ta, isTA := x.Tuple.(*ssa.TypeAssert); isTA && x.Index == 1 && isTarget(ta.X) {
+				t := ta.AssertedType
+				if pt, isPtr := t.(*types.Pointer); isPtr {
+					t = pt.Elem()
+				}
+				if nt, isNamed := t.(*types.Named); isNamed && nt.Obj().Pkg() == r.pkg.Types {
+					return fls
+				}
+			}
+		case *ssa.Phi:
+			if pred != nil {
+				for i, p := range x.Block().Preds {
+					if p == pred {
+						return eval(x.Edges[i], nil, depth+1)
+					}
+				}
+			}
+			res := -1
+			for _, ed := range x.Edges {
+				r := eval(ed, nil, depth+1)
+				if res == -1 {
+					res = r
+				} else if res != r {
+					return unk
+				}
+			}
+			if res >= 0 {
+				return res
+			}
 		}
-	})
-	l.Check(ok && n > 0, "C02-T7", "gorums.(QuorumCallError).Is", fn.Pos(), "every return compares e.cause with the target (or its cause)", "QuorumCallError.Is does not compare the cause on every path: errors.Is(err, Incomplete) / errors.Is(err, ctx.Err()) no longer follow from the cause")
+		return unk
+	}
+	type st struct{ b, pred *ssa.BasicBlock }
+	seen := map[st]bool{}
+	work := []st{{fn.Blocks[0], nil}}
+	ok, n := true, 0
+	var badPos token.Pos
+	for len(work) > 0 {
+		s := work[len(work)-1]
+		work = work[:len(work)-1]
+		if seen[s] {
+			continue
+		}
+		seen[s] = true
+		last := s.b.Instrs[len(s.b.Instrs)-1]
+		switch t := last.(type) {
+		case *ssa.Return:
+			n++
+			v := t.Results[0]
+			pred := s.pred
+			if ph, isPhi := v.(*ssa.Phi); isPhi && ph.Block() != s.b {
+				pred = nil
+			}
+			if eval(v, pred, 0) != tru {
+				ok = false
+				badPos = sx.PosOf(t)
+			}
+		case *ssa.If:
+			switch eval(t.Cond, s.pred, 0) {
+			case tru:
+				work = append(work, st{s.b.Succs[0], s.b})
+			case fls:
+				work = append(work, st{s.b.Succs[1], s.b})
+			default:
+				work = append(work, st{s.b.Succs[0], s.b}, st{s.b.Succs[1], s.b})
+			}
+		default:
+			for _, su := range s.b.Succs {
+				work = append(work, st{su, s.b})
+			}
+		}
+	}
+	pos := fn.Pos()
+	if !ok && badPos.IsValid() {
+		pos = badPos
+	}
+	l.Check(ok && n > 0, "C02-T7", "gorums.(QuorumCallError).Is", pos, "Is answers true whenever the cause equals the target (evaluated under that assumption on every path)", "QuorumCallError.Is can answer something other than true although the cause equals the target (and no Unwrap hands the cause out): errors.Is(err, Incomplete) / errors.Is(err, ctx.Err()) no longer follow from the cause")
 }
